@@ -221,7 +221,7 @@ func init() {
 	base.Gen = GenOpts{HostilePct: 12, ExtremePct: 2, MaxDt: 40, Tempos: []int{3, 10, 30}, DowntimePct: 40, Anchor: true,
 		Weights: map[string]int{
 			"nextBlock": 44, "depositLST": 5, "delegate": 8, "undelegate": 7, "associate": 2, "optIn": 4, "optOut": 3, "setKey": 4,
-			"slash": 2, "evidence": 2, "unjail": 3, "jail": 1, "nativeDelegate": 2, "nativeUndelegate": 2, "payFee": 2, "depositNST": 1, "nstUpdate": 1,
+			"slash": 2, "evidence": 2, "unjail": 1, "msgUnjail": 6, "jail": 1, "nativeDelegate": 2, "nativeUndelegate": 2, "payFee": 2, "depositNST": 1, "nstUpdate": 1,
 		}}
 	base.Config = func(t *rapid.T) sim.Config {
 		cfg := worldConfig(t)
